@@ -178,4 +178,61 @@ theorem mem_dedupInts (l : List Int) (a : Int) : a ∈ dedupInts l ↔ a ∈ l :
         · exact h'
     · simp [ih]
 
+/-! ### `mapM` in `Except` -/
+
+theorem mapM_ok {α β : Type} (f : α → Except Err β) (g : α → β) :
+    ∀ l : List α, (∀ x ∈ l, f x = .ok (g x)) → l.mapM f = .ok (l.map g) := by
+  intro l
+  induction l with
+  | nil => intro _; rfl
+  | cons a r ih =>
+    intro h
+    rw [List.mapM_cons, h a List.mem_cons_self, ih (fun x hx => h x (List.mem_cons_of_mem _ hx))]
+    rfl
+
+theorem nodup_map_of_inj_on {α β : Type} (f : α → β) :
+    ∀ l : List α, (∀ a ∈ l, ∀ b ∈ l, f a = f b → a = b) → l.Nodup → (l.map f).Nodup := by
+  intro l
+  induction l with
+  | nil => intro _ _; simp
+  | cons a r ih =>
+    intro hinj hnd
+    rw [List.nodup_cons] at hnd
+    rw [List.map_cons, List.nodup_cons]
+    refine ⟨?_, ih (fun x hx y hy => hinj x (List.mem_cons_of_mem _ hx) y (List.mem_cons_of_mem _ hy)) hnd.2⟩
+    intro hm
+    obtain ⟨b, hb, hfb⟩ := List.mem_map.mp hm
+    have := hinj b (List.mem_cons_of_mem _ hb) a List.mem_cons_self hfb
+    subst this
+    exact hnd.1 hb
+
+/-- pairs with distinct second components: the first component is determined -/
+theorem fst_eq_of_snd_nodup {α β : Type} {l : List (α × β)} (h : (l.map (·.2)).Nodup)
+    {a a' : α} {b : β} (h1 : (a, b) ∈ l) (h2 : (a', b) ∈ l) : a = a' := by
+  induction l with
+  | nil => cases h1
+  | cons p r ih =>
+    simp only [List.map_cons, List.nodup_cons] at h
+    rcases List.mem_cons.mp h1 with e1 | m1
+    · rcases List.mem_cons.mp h2 with e2 | m2
+      · rw [← e2] at e1; exact (Prod.mk.inj e1).1
+      · exfalso; apply h.1; rw [← e1]; exact List.mem_map.mpr ⟨(a', b), m2, rfl⟩
+    · rcases List.mem_cons.mp h2 with e2 | m2
+      · exfalso; apply h.1; rw [← e2]; exact List.mem_map.mpr ⟨(a, b), m1, rfl⟩
+      · exact ih h.2 m1 m2
+
+theorem snd_eq_of_fst_nodup {α β : Type} {l : List (α × β)} (h : (l.map (·.1)).Nodup)
+    {a : α} {b b' : β} (h1 : (a, b) ∈ l) (h2 : (a, b') ∈ l) : b = b' := by
+  induction l with
+  | nil => cases h1
+  | cons p r ih =>
+    simp only [List.map_cons, List.nodup_cons] at h
+    rcases List.mem_cons.mp h1 with e1 | m1
+    · rcases List.mem_cons.mp h2 with e2 | m2
+      · rw [← e2] at e1; exact (Prod.mk.inj e1).2
+      · exfalso; apply h.1; rw [← e1]; exact List.mem_map.mpr ⟨(a, b'), m2, rfl⟩
+    · rcases List.mem_cons.mp h2 with e2 | m2
+      · exfalso; apply h.1; rw [← e2]; exact List.mem_map.mpr ⟨(a, b), m1, rfl⟩
+      · exact ih h.2 m1 m2
+
 end DD
